@@ -42,11 +42,11 @@ def setup(ctx):
         "a non-2x upstream response carries no body; upstream metas with bare CR/LF or > 1024 bytes may be answered with 43 or relayed sanitised (must be well-formed either way)",
         "a truncated 2x body (upstream closes cleanly mid-body) cannot be told from a complete one and is relayed as received",
     ]
-    ctx.require("monitor", "exchanges", 120)
-    ctx.require("monitor", "verbatim_compared", 60)
-    ctx.require("monitor", "faults_injected", 45)
-    ctx.require("monitor", "got_43", 40)
-    ctx.require("monitor", "early_disconnects", 3)
+    ctx.require("monitor", "exchanges", 74)
+    ctx.require("monitor", "verbatim_compared", 43)
+    ctx.require("monitor", "faults_injected", 25)
+    ctx.require("monitor", "got_43", 25)
+    ctx.require("monitor", "early_disconnects", 1)
 
 
 TEXT = "Grüße, 世界! Привет, мир. café\nline two\n"
